@@ -703,6 +703,34 @@ variable {K : Type} [Field K] [LinearOrder K] [IsStrictOrderedRing K]
                         [(line_tOfPoint_sworn_v p0x p0y p1x p1y v2 v3), (line_tOfPoint_sworn_v lx py px py v2 v3)]
 
 
+/-- CubicBezier.hasLoop: [] for False, else the two parameters (t1, t2) of the canonical-form test -/
+
+@[gen_def] def cubic_hasLoop (sqrt : K → K) (p0x p0y p1x p1y p2x p2y p3x p3y : K) : List K :=
+  if (sqrt ((((((((3 : K) * ((((p2x * (p1y - p0y)) + (p2y * (p0x - p1x))) + (p1x * p0y)) - (p1y * p0x))) - ((((p1x * (p0y - p3y)) + (p1y * (p3x - p0x))) + (p0x * p3y)) - (p0y * p3x))) - ((((p1x * (p0y - p3y)) + (p1y * (p3x - p0x))) + (p0x * p3y)) - (p0y * p3x))) + ((((p0x * (p3y - p2y)) + (p0y * (p2x - p3x))) + (p3x * p2y)) - (p3y * p2x))) * (((((3 : K) * ((((p2x * (p1y - p0y)) + (p2y * (p0x - p1x))) + (p1x * p0y)) - (p1y * p0x))) - ((((p1x * (p0y - p3y)) + (p1y * (p3x - p0x))) + (p0x * p3y)) - (p0y * p3x))) - ((((p1x * (p0y - p3y)) + (p1y * (p3x - p0x))) + (p0x * p3y)) - (p0y * p3x))) + ((((p0x * (p3y - p2y)) + (p0y * (p2x - p3x))) + (p3x * p2y)) - (p3y * p2x)))) + ((((3 : K) * ((((p2x * (p1y - p0y)) + (p2y * (p0x - p1x))) + (p1x * p0y)) - (p1y * p0x))) - ((((p1x * (p0y - p3y)) + (p1y * (p3x - p0x))) + (p0x * p3y)) - (p0y * p3x))) * (((3 : K) * ((((p2x * (p1y - p0y)) + (p2y * (p0x - p1x))) + (p1x * p0y)) - (p1y * p0x))) - ((((p1x * (p0y - p3y)) + (p1y * (p3x - p0x))) + (p0x * p3y)) - (p0y * p3x))))) + (((3 : K) * ((((p2x * (p1y - p0y)) + (p2y * (p0x - p1x))) + (p1x * p0y)) - (p1y * p0x))) * ((3 : K) * ((((p2x * (p1y - p0y)) + (p2y * (p0x - p1x))) + (p1x * p0y)) - (p1y * p0x)))))) ≠ (0 : K) then
+    if ((((3 : K) * ((((3 : K) * ((((p2x * (p1y - p0y)) + (p2y * (p0x - p1x))) + (p1x * p0y)) - (p1y * p0x))) - ((((p1x * (p0y - p3y)) + (p1y * (p3x - p0x))) + (p0x * p3y)) - (p0y * p3x))) * ((1 : K) / (sqrt ((((((((3 : K) * ((((p2x * (p1y - p0y)) + (p2y * (p0x - p1x))) + (p1x * p0y)) - (p1y * p0x))) - ((((p1x * (p0y - p3y)) + (p1y * (p3x - p0x))) + (p0x * p3y)) - (p0y * p3x))) - ((((p1x * (p0y - p3y)) + (p1y * (p3x - p0x))) + (p0x * p3y)) - (p0y * p3x))) + ((((p0x * (p3y - p2y)) + (p0y * (p2x - p3x))) + (p3x * p2y)) - (p3y * p2x))) * (((((3 : K) * ((((p2x * (p1y - p0y)) + (p2y * (p0x - p1x))) + (p1x * p0y)) - (p1y * p0x))) - ((((p1x * (p0y - p3y)) + (p1y * (p3x - p0x))) + (p0x * p3y)) - (p0y * p3x))) - ((((p1x * (p0y - p3y)) + (p1y * (p3x - p0x))) + (p0x * p3y)) - (p0y * p3x))) + ((((p0x * (p3y - p2y)) + (p0y * (p2x - p3x))) + (p3x * p2y)) - (p3y * p2x)))) + ((((3 : K) * ((((p2x * (p1y - p0y)) + (p2y * (p0x - p1x))) + (p1x * p0y)) - (p1y * p0x))) - ((((p1x * (p0y - p3y)) + (p1y * (p3x - p0x))) + (p0x * p3y)) - (p0y * p3x))) * (((3 : K) * ((((p2x * (p1y - p0y)) + (p2y * (p0x - p1x))) + (p1x * p0y)) - (p1y * p0x))) - ((((p1x * (p0y - p3y)) + (p1y * (p3x - p0x))) + (p0x * p3y)) - (p0y * p3x))))) + (((3 : K) * ((((p2x * (p1y - p0y)) + (p2y * (p0x - p1x))) + (p1x * p0y)) - (p1y * p0x))) * ((3 : K) * ((((p2x * (p1y - p0y)) + (p2y * (p0x - p1x))) + (p1x * p0y)) - (p1y * p0x))))))))) * ((((3 : K) * ((((p2x * (p1y - p0y)) + (p2y * (p0x - p1x))) + (p1x * p0y)) - (p1y * p0x))) - ((((p1x * (p0y - p3y)) + (p1y * (p3x - p0x))) + (p0x * p3y)) - (p0y * p3x))) * ((1 : K) / (sqrt ((((((((3 : K) * ((((p2x * (p1y - p0y)) + (p2y * (p0x - p1x))) + (p1x * p0y)) - (p1y * p0x))) - ((((p1x * (p0y - p3y)) + (p1y * (p3x - p0x))) + (p0x * p3y)) - (p0y * p3x))) - ((((p1x * (p0y - p3y)) + (p1y * (p3x - p0x))) + (p0x * p3y)) - (p0y * p3x))) + ((((p0x * (p3y - p2y)) + (p0y * (p2x - p3x))) + (p3x * p2y)) - (p3y * p2x))) * (((((3 : K) * ((((p2x * (p1y - p0y)) + (p2y * (p0x - p1x))) + (p1x * p0y)) - (p1y * p0x))) - ((((p1x * (p0y - p3y)) + (p1y * (p3x - p0x))) + (p0x * p3y)) - (p0y * p3x))) - ((((p1x * (p0y - p3y)) + (p1y * (p3x - p0x))) + (p0x * p3y)) - (p0y * p3x))) + ((((p0x * (p3y - p2y)) + (p0y * (p2x - p3x))) + (p3x * p2y)) - (p3y * p2x)))) + ((((3 : K) * ((((p2x * (p1y - p0y)) + (p2y * (p0x - p1x))) + (p1x * p0y)) - (p1y * p0x))) - ((((p1x * (p0y - p3y)) + (p1y * (p3x - p0x))) + (p0x * p3y)) - (p0y * p3x))) * (((3 : K) * ((((p2x * (p1y - p0y)) + (p2y * (p0x - p1x))) + (p1x * p0y)) - (p1y * p0x))) - ((((p1x * (p0y - p3y)) + (p1y * (p3x - p0x))) + (p0x * p3y)) - (p0y * p3x))))) + (((3 : K) * ((((p2x * (p1y - p0y)) + (p2y * (p0x - p1x))) + (p1x * p0y)) - (p1y * p0x))) * ((3 : K) * ((((p2x * (p1y - p0y)) + (p2y * (p0x - p1x))) + (p1x * p0y)) - (p1y * p0x))))))))) - (((4 : K) * ((((((3 : K) * ((((p2x * (p1y - p0y)) + (p2y * (p0x - p1x))) + (p1x * p0y)) - (p1y * p0x))) - ((((p1x * (p0y - p3y)) + (p1y * (p3x - p0x))) + (p0x * p3y)) - (p0y * p3x))) - ((((p1x * (p0y - p3y)) + (p1y * (p3x - p0x))) + (p0x * p3y)) - (p0y * p3x))) + ((((p0x * (p3y - p2y)) + (p0y * (p2x - p3x))) + (p3x * p2y)) - (p3y * p2x))) * ((1 : K) / (sqrt ((((((((3 : K) * ((((p2x * (p1y - p0y)) + (p2y * (p0x - p1x))) + (p1x * p0y)) - (p1y * p0x))) - ((((p1x * (p0y - p3y)) + (p1y * (p3x - p0x))) + (p0x * p3y)) - (p0y * p3x))) - ((((p1x * (p0y - p3y)) + (p1y * (p3x - p0x))) + (p0x * p3y)) - (p0y * p3x))) + ((((p0x * (p3y - p2y)) + (p0y * (p2x - p3x))) + (p3x * p2y)) - (p3y * p2x))) * (((((3 : K) * ((((p2x * (p1y - p0y)) + (p2y * (p0x - p1x))) + (p1x * p0y)) - (p1y * p0x))) - ((((p1x * (p0y - p3y)) + (p1y * (p3x - p0x))) + (p0x * p3y)) - (p0y * p3x))) - ((((p1x * (p0y - p3y)) + (p1y * (p3x - p0x))) + (p0x * p3y)) - (p0y * p3x))) + ((((p0x * (p3y - p2y)) + (p0y * (p2x - p3x))) + (p3x * p2y)) - (p3y * p2x)))) + ((((3 : K) * ((((p2x * (p1y - p0y)) + (p2y * (p0x - p1x))) + (p1x * p0y)) - (p1y * p0x))) - ((((p1x * (p0y - p3y)) + (p1y * (p3x - p0x))) + (p0x * p3y)) - (p0y * p3x))) * (((3 : K) * ((((p2x * (p1y - p0y)) + (p2y * (p0x - p1x))) + (p1x * p0y)) - (p1y * p0x))) - ((((p1x * (p0y - p3y)) + (p1y * (p3x - p0x))) + (p0x * p3y)) - (p0y * p3x))))) + (((3 : K) * ((((p2x * (p1y - p0y)) + (p2y * (p0x - p1x))) + (p1x * p0y)) - (p1y * p0x))) * ((3 : K) * ((((p2x * (p1y - p0y)) + (p2y * (p0x - p1x))) + (p1x * p0y)) - (p1y * p0x))))))))) * (((3 : K) * ((((p2x * (p1y - p0y)) + (p2y * (p0x - p1x))) + (p1x * p0y)) - (p1y * p0x))) * ((1 : K) / (sqrt ((((((((3 : K) * ((((p2x * (p1y - p0y)) + (p2y * (p0x - p1x))) + (p1x * p0y)) - (p1y * p0x))) - ((((p1x * (p0y - p3y)) + (p1y * (p3x - p0x))) + (p0x * p3y)) - (p0y * p3x))) - ((((p1x * (p0y - p3y)) + (p1y * (p3x - p0x))) + (p0x * p3y)) - (p0y * p3x))) + ((((p0x * (p3y - p2y)) + (p0y * (p2x - p3x))) + (p3x * p2y)) - (p3y * p2x))) * (((((3 : K) * ((((p2x * (p1y - p0y)) + (p2y * (p0x - p1x))) + (p1x * p0y)) - (p1y * p0x))) - ((((p1x * (p0y - p3y)) + (p1y * (p3x - p0x))) + (p0x * p3y)) - (p0y * p3x))) - ((((p1x * (p0y - p3y)) + (p1y * (p3x - p0x))) + (p0x * p3y)) - (p0y * p3x))) + ((((p0x * (p3y - p2y)) + (p0y * (p2x - p3x))) + (p3x * p2y)) - (p3y * p2x)))) + ((((3 : K) * ((((p2x * (p1y - p0y)) + (p2y * (p0x - p1x))) + (p1x * p0y)) - (p1y * p0x))) - ((((p1x * (p0y - p3y)) + (p1y * (p3x - p0x))) + (p0x * p3y)) - (p0y * p3x))) * (((3 : K) * ((((p2x * (p1y - p0y)) + (p2y * (p0x - p1x))) + (p1x * p0y)) - (p1y * p0x))) - ((((p1x * (p0y - p3y)) + (p1y * (p3x - p0x))) + (p0x * p3y)) - (p0y * p3x))))) + (((3 : K) * ((((p2x * (p1y - p0y)) + (p2y * (p0x - p1x))) + (p1x * p0y)) - (p1y * p0x))) * ((3 : K) * ((((p2x * (p1y - p0y)) + (p2y * (p0x - p1x))) + (p1x * p0y)) - (p1y * p0x)))))))))) ≥ (0 : K) then
+      []
+    else
+      let v0 := ((3 : K) * ((((p2x * (p1y - p0y)) + (p2y * (p0x - p1x))) + (p1x * p0y)) - (p1y * p0x)))
+      let v1 := ((((p1x * (p0y - p3y)) + (p1y * (p3x - p0x))) + (p0x * p3y)) - (p0y * p3x))
+      let v2 := (((v0 - v1) - v1) + ((((p0x * (p3y - p2y)) + (p0y * (p2x - p3x))) + (p3x * p2y)) - (p3y * p2x)))
+      let v3 := ((1 : K) / (sqrt (((v2 * v2) + ((v0 - v1) * (v0 - v1))) + (v0 * v0))))
+      let v4 := ((v0 - v1) * v3)
+      let v5 := (sqrt (-((((3 : K) * v4) * v4) - (((4 : K) * (v2 * v3)) * (v0 * v3)))))
+      let v6 := ((2 : K) * (v2 * v3))
+      [((v4 + v5) / v6), ((v4 - v5) / v6)]
+  else
+    if ((((3 : K) * ((((3 : K) * ((((p2x * (p1y - p0y)) + (p2y * (p0x - p1x))) + (p1x * p0y)) - (p1y * p0x))) - ((((p1x * (p0y - p3y)) + (p1y * (p3x - p0x))) + (p0x * p3y)) - (p0y * p3x))) * (0 : K))) * ((((3 : K) * ((((p2x * (p1y - p0y)) + (p2y * (p0x - p1x))) + (p1x * p0y)) - (p1y * p0x))) - ((((p1x * (p0y - p3y)) + (p1y * (p3x - p0x))) + (p0x * p3y)) - (p0y * p3x))) * (0 : K))) - (((4 : K) * ((((((3 : K) * ((((p2x * (p1y - p0y)) + (p2y * (p0x - p1x))) + (p1x * p0y)) - (p1y * p0x))) - ((((p1x * (p0y - p3y)) + (p1y * (p3x - p0x))) + (p0x * p3y)) - (p0y * p3x))) - ((((p1x * (p0y - p3y)) + (p1y * (p3x - p0x))) + (p0x * p3y)) - (p0y * p3x))) + ((((p0x * (p3y - p2y)) + (p0y * (p2x - p3x))) + (p3x * p2y)) - (p3y * p2x))) * (0 : K))) * (((3 : K) * ((((p2x * (p1y - p0y)) + (p2y * (p0x - p1x))) + (p1x * p0y)) - (p1y * p0x))) * (0 : K)))) ≥ (0 : K) then
+      []
+    else
+      let v0 := ((3 : K) * ((((p2x * (p1y - p0y)) + (p2y * (p0x - p1x))) + (p1x * p0y)) - (p1y * p0x)))
+      let v1 := ((((p1x * (p0y - p3y)) + (p1y * (p3x - p0x))) + (p0x * p3y)) - (p0y * p3x))
+      let v2 := ((v0 - v1) * (0 : K))
+      let v3 := ((((v0 - v1) - v1) + ((((p0x * (p3y - p2y)) + (p0y * (p2x - p3x))) + (p3x * p2y)) - (p3y * p2x))) * (0 : K))
+      let v4 := (sqrt (-((((3 : K) * v2) * v2) - (((4 : K) * v3) * (v0 * (0 : K))))))
+      let v5 := ((2 : K) * v3)
+      [((v2 + v4) / v5), ((v2 - v4) / v5)]
+
+
 end Gen
 
 /-- evaluation at K = ℚ for the correspondence driver -/
@@ -710,4 +738,5 @@ def Gen.dispatchInter (tbl : FnTable) (name : String) (a : List ℚ) : Option (L
   match name with
   | "line_line" => if a.length = 8 then some (Gen.line_line (a.getD 0 0) (a.getD 1 0) (a.getD 2 0) (a.getD 3 0) (a.getD 4 0) (a.getD 5 0) (a.getD 6 0) (a.getD 7 0)) else none
   | "ray_line" => if a.length = 7 then some (Gen.ray_line (a.getD 0 0) (a.getD 1 0) (a.getD 2 0) (a.getD 3 0) (a.getD 4 0) (a.getD 5 0) (a.getD 6 0)) else none
+  | "cubic_hasLoop" => if a.length = 8 then some (Gen.cubic_hasLoop (tbl.sqrt) (a.getD 0 0) (a.getD 1 0) (a.getD 2 0) (a.getD 3 0) (a.getD 4 0) (a.getD 5 0) (a.getD 6 0) (a.getD 7 0)) else none
   | _ => none
